@@ -979,7 +979,9 @@ func (r *awsChunkReadCloser) Read(p []byte) (n int, err error) {
 			r.chunkSignature = signature
 		}
 
-		length, err := strconv.ParseUint(hexLen, 16, 64)
+		// bitSize 63: the length is kept in an int64, a value above
+		// math.MaxInt64 would turn negative and break the slicing below.
+		length, err := strconv.ParseUint(hexLen, 16, 63)
 		if err != nil {
 			return 0, err
 		}
